@@ -1,25 +1,403 @@
-"""C11 (first part: compare_types and kind predicates).  Extended by the
-TypeNames model (type strings, snprintf contracts)."""
+"""C11: object type strings parse back; obj/attr snprintf obey the length contract; compare_types.
+
+proof : coq/Props/Properties_C11.v  (models coq/Text/TypeOrder.v, coq/Text/TypeNames.v; lemmas TypeNamesProofs.v)
+tie   : harness/hwv_types.c (real library, ASan/UBSan) vs the extracted model (ocaml/drv_c11.ml) on one case file:
+        cmp/kind (all pairs), tstr (all types), tsn (hand-made objects: 20 types x attribute values x flag words,
+        every buffer size 0..needed+1 on exactly-sized blocks, round trip on the C side, garbage-filled twin object),
+        asn (attribute printer likewise), ssc (strings for hwloc_type_sscanf at the end of exactly-sized blocks),
+        plus every object of synthetic topologies and of the XML corpus (tests/hwloc/xml + corpus/c11/*.xml), re-run as
+        tsn/asn cases, with the contract / round trip / one-text-per-level evaluated on the C side for all of them
+search: the executable form of the property statement over what the C code produced (contract, round trip, totality,
+        termination), independent of the model
+
+Violation keys of the genuine defects found (see known_findings.txt / patches/fix-C11-*.diff):
+  osdev-snprintf-unknown-bit-loop     traversal.c:611 while (ostype) never ends for a bit outside names[]
+  type-sscanf-literal-overread-0xe0   traversal.c:314 hwloc__type_match reads past the keyword literal on byte 0xE0
+  xml-bridge-type-unchecked           topology-xml.c:344 bridge_type from XML is not validated: assert() in the printers /
+                                      upstream type that does not round trip
+"""
+import glob
+import os
+import re
+import tempfile
+
 from hv import common as C
+from gen import typenames_gen as G
+
+K_LOOP = "osdev-snprintf-unknown-bit-loop"
+K_E0 = "type-sscanf-literal-overread-0xe0"
+K_BRIDGE = "xml-bridge-type-unchecked"
+CORPUS = os.path.join(C.VERIF, "corpus", "c11")
+SWITCH_HINT = ("  (if a fix-C11-* patch was just committed to /repo, apply the matching /verif/patches/verif-C11-after-*.diff "
+               "so that the model follows the fixed code)")
+
+
+class Tools:
+    def __init__(self):
+        self.drv = C.extract("C11", "drv_c11.ml", prelude=["hvnum.ml"])
+        self.exe = C.build_harness("hwv_types", ["hwv_types.c"])
+        self.env = C.run_env()
+        self.cls, self.lnk = {}, {}
+
+    def c(self, lines, timeout=600):
+        rc, out, err = C.sh([self.exe], input=("\n".join(lines) + "\n").encode(), env=self.env, timeout=timeout)
+        return rc, out.decode("latin-1").split("\n"), err.decode(errors="replace")
+
+    def m(self, lines, timeout=600):
+        rc, out, err = C.sh([self.drv], input=("\n".join(lines) + "\n").encode(), timeout=timeout)
+        if rc != 0:
+            raise RuntimeError("model driver failed: " + err.decode(errors="replace")[-2000:])
+        return out.decode("latin-1").split("\n")
+
+    def query(self, cls_ids, links):
+        qs = ["q cls %d" % i for i in cls_ids if i not in self.cls] + ["q lnk %s" % l for l in links if l not in self.lnk]
+        if not qs:
+            return
+        rc, out, err = self.c(qs)
+        for q, a in zip(qs, out):
+            f = a.split()
+            if q.startswith("q cls"):
+                self.cls[int(q.split()[2])] = "" if f[3] == "-" else bytes.fromhex(f[3]).decode("latin-1")
+            else:
+                self.lnk[q.split()[2]] = "" if f[3] == "-" else bytes.fromhex(f[3]).decode("latin-1")
+
+    def cls_text(self, i):
+        self.query([i], [])
+        return self.cls[i]
+
+    def lnk_text(self, l):
+        self.query([], [l])
+        return self.lnk[l]
+
+
+def split_answers(cases, out):
+    """answers of one executor grouped per input line (tsn/asn answer several lines tagged tag#lineno)"""
+    res, i = [], 0
+    for no, c in enumerate(cases, 1):
+        tag = c.split(" ", 1)[0].rstrip("!")
+        if tag in ("tsn", "asn"):
+            pre = "%s#%d " % (tag, no)
+            j = i
+            while j < len(out) and out[j].startswith(pre):
+                j += 1
+            res.append(out[i:j])
+            i = j
+        elif tag in ("cmp", "kind", "ssc", "tstr"):
+            if i < len(out) and out[i].startswith(tag):
+                res.append([out[i]])
+                i += 1
+            else:
+                res.append([])
+        else:
+            res.append([])
+    return res
+
+
+def unhex(h):
+    return b"" if h == "-" else bytes.fromhex(h)
+
+
+def contract_spec(ans):
+    """the length contract over the C answers of one tsn/asn case; returns None or a description"""
+    if not ans or " need=" not in ans[0]:
+        return None
+    need = int(ans[0].rsplit("need=", 1)[1])
+    sizes = {}
+    for l in ans[1:]:
+        m = re.match(r"\w+#\d+ size=(\d+) ret=(-?\d+) buf=(\S+)$", l)
+        if m:
+            sizes[int(m.group(1))] = (int(m.group(2)), unhex(m.group(3)))
+        elif " size=" in l:
+            return "size line: " + l
+    if need + 1 not in sizes:
+        return "no answer for size needed+1"
+    full = sizes[need + 1][1]
+    if len(full) != need + 1 or full[need] != 0 or 0 in full[:need]:
+        return "full-size call: text length is not the returned value %d: %r" % (need, full)
+    for k, (r, b) in sorted(sizes.items()):
+        if r != need:
+            return "size %d: returned %d, untruncated length is %d" % (k, r, need)
+        if len(b) != k:
+            return "size %d: buffer dump has %d bytes" % (k, len(b))
+        if k == 0:
+            continue
+        n = min(k - 1, need)
+        if b[:n] != full[:n]:
+            return "size %d: not a prefix of the full text" % k
+        if b[n] != 0:
+            return "size %d: not NUL-terminated" % k
+        if any(x != 0xaa for x in b[n + 1:]):
+            return "size %d: bytes after the terminator were written" % k
+    return None
+
+
+def roundtrip_spec(f, ans):
+    """sscanf(snprintf(o)) on the C side: same type and requested attributes (flags without SHORT_NAMES, in-domain objects)"""
+    t, cd, ct, gd, bu, bd, os, flags = f
+    rt = [l for l in ans if " rt " in l]
+    if not rt:
+        return "no round-trip answer"
+    r = rt[0].split(" rt ", 1)[1]
+    if 5 <= t <= 12:
+        want = "0 type=%d cache %d %d" % (t, cd, ct)
+    elif t == G.T_GROUP:
+        want = "0 type=%d group %d" % (t, gd)
+    elif t == G.T_BRIDGE:
+        want = "0 type=%d bridge %d %d" % (t, bu, bd)
+    elif t == G.T_OSDEV:
+        want = "0 type=%d osdev %d" % (t, os & G.KNOWN_OS_MASK)
+    else:
+        want = "0 type=%d none" % t      # nothing stored for the other types (union untouched)
+    return None if r == want else "round trip gives %r, expected %r" % (r, want)
+
+
+class Checker:
+    def __init__(self, run, tools):
+        self.run, self.T = run, tools
+        self.n_corr_bad = 0
+
+    def replay_text(self, case, ac, am, extra=""):
+        return "kind: input\ncase: %s\n%simpl:\n  %s\nmodel:\n  %s\n" % (case, extra, "\n  ".join(ac[:12]), "\n  ".join(am[:12]))
+
+    def execute(self, cases, xml_objs=frozenset()):
+        """run both executors; returns per-case (C answers, model answers).  A crash of the C harness is a violation
+        for the case it stopped on; the rest is re-run without it."""
+        run, T = self.run, self.T
+        am = split_answers(cases, T.m(cases))
+        ac = [None] * len(cases)
+        todo = list(range(len(cases)))
+        guard = 0
+        while todo and guard < 12:
+            guard += 1
+            sub = [cases[i] for i in todo]
+            rc, out, err = T.c(sub)
+            part = split_answers(sub, [l for l in out if l])
+            if rc == 0:
+                for i, a in zip(todo, part):
+                    ac[i] = a
+                break
+            # the harness flushes after every input line: the first case whose answer is shorter than the
+            # model's is where it died
+            k = next((j for j in range(len(sub)) if len(part[j]) < max(1, len(am[todo[j]]))), len(sub) - 1)
+            for i, a in zip(todo[:k], part[:k]):
+                ac[i] = a
+            bad = todo[k]
+            ac[bad] = (part[k] if k < len(part) else []) + ["CRASH rc=%d" % rc]
+            kind = {97: "asan", 98: "ubsan", 96: "lsan", 124: "timeout"}.get(rc, "crash")
+            key = "harness-%s:%s" % (kind, cases[bad].replace(" ", "_")[:80])
+            if cases[bad].startswith("ssc") and "e0" in cases[bad].split()[1]:
+                key = K_E0
+            run.violation(key, "the C harness died (%s, rc=%d) on case %r" % (kind, rc, cases[bad]),
+                          self.replay_text(cases[bad], ac[bad], am[bad], "stderr:\n  " + err[-1500:].replace("\n", "\n  ") + "\n"))
+            todo = todo[k + 1:]
+        for i in range(len(cases)):
+            if ac[i] is None:
+                ac[i] = ["NOT-RUN"]
+        return ac, am
+
+    def judge(self, cases, ac, am, origin="gen", from_load=False):
+        run = self.run
+        for c, a, b in zip(cases, ac, am):
+            tag = c.split(" ", 1)[0].rstrip("!")
+            run.count("\n".join(a), nontrivial=True, sample={"case": c[:200], "impl": a[:3], "model": b[:3]}, kind=tag + ":" + origin)
+            spec_bad = None
+            # ---- the property statement evaluated on the implementation's answers
+            if tag == "tsn":
+                f = G.parse_tsn(c)
+                if any(l.endswith("LOOP") for l in a):
+                    key = K_LOOP if (f[0] == G.T_OSDEV and f[6] & ~G.KNOWN_OS_MASK) else "type-snprintf-loop:" + c.replace(" ", "_")
+                    spec_bad = (key, "hwloc_obj_type_snprintf does not return (no answer within 150 ms of CPU time) for %s" % c)
+                elif any(l.endswith("ASSERT") for l in a):
+                    if from_load:
+                        spec_bad = (K_BRIDGE, "hwloc_obj_type_snprintf aborts (assert) on an object of a loaded topology: %s" % c)
+                else:
+                    e = contract_spec(a)
+                    if e:
+                        spec_bad = ("type-snprintf-contract:" + c.replace(" ", "_"), "hwloc_obj_type_snprintf length contract: %s (%s)" % (e, c))
+                    elif (G.tsn_in_domain(f) or from_load) and not (f[7] & G.F_SHORT):
+                        e = roundtrip_spec(f, a)
+                        if e:
+                            key = K_BRIDGE if (f[0] == G.T_BRIDGE and from_load) else "type-roundtrip:" + c.replace(" ", "_")
+                            spec_bad = (key, "hwloc_type_sscanf(hwloc_obj_type_snprintf(o)): %s (%s)" % (e, c))
+                    if not spec_bad:
+                        g = [l for l in a if " garb " in l]
+                        full = [l for l in a if " size=" in l]
+                        if g and full and "text=" in g[0]:
+                            txt = unhex(full[-1].rsplit("buf=", 1)[1])[:-1]
+                            if unhex(g[0].rsplit("text=", 1)[1]) != txt:
+                                spec_bad = ("type-text-depends-on-other-fields:" + c.replace(" ", "_"),
+                                            "two objects agreeing on (type, printed attributes, flags) print different texts: %s" % c)
+            elif tag == "asn":
+                if any(l.endswith("LOOP") for l in a):
+                    spec_bad = ("attr-snprintf-loop:" + c[:60].replace(" ", "_"), "hwloc_obj_attr_snprintf does not return: %s" % c)
+                elif any(l.endswith("ASSERT") for l in a):
+                    if from_load:
+                        spec_bad = (K_BRIDGE, "hwloc_obj_attr_snprintf aborts (assert) on an object of a loaded topology: %s" % c)
+                elif G.asn_latent(c):
+                    run.bump("asn:latent-io-total-memory")
+                else:
+                    e = contract_spec(a)
+                    if e:
+                        spec_bad = ("attr-snprintf-contract:" + c[:80].replace(" ", "_"), "hwloc_obj_attr_snprintf length contract: %s (%s)" % (e, c))
+            elif tag == "ssc":
+                r = a[0].split(" -> ", 1)[1] if a and " -> " in a[0] else "?"
+                if r.startswith("OOB") or r.startswith("?"):
+                    hexs = c.split()[1]
+                    key = K_E0 if "e0" in re.findall("..", hexs) else "type-sscanf-oob:" + hexs[:60]
+                    spec_bad = (key, "hwloc_type_sscanf reads outside its arguments (sanitizer report) on bytes %s" % hexs)
+                elif "STORED" in r:
+                    spec_bad = ("type-sscanf-stores-on-failure:" + c.split()[1][:60], "hwloc_type_sscanf returned -1 but stored through typep/attrp: %s" % c)
+                elif not re.match(r"(-1|0 type=\d+ (none|cache \d+ -?\d+|group \d+|bridge -?\d+ -?\d+|osdev \d+))$", r):
+                    spec_bad = ("type-sscanf-result:" + c.split()[1][:60], "unexpected result %r for %s" % (r, c))
+                run.bump("ssc:accepted" if r.startswith("0") else "ssc:rejected" if r.startswith("-1") else "ssc:oob")
+            elif tag == "tstr":
+                t = int(c.split()[1])
+                r = a[0].split(" rt ", 1)[1] if a and " rt " in a[0] else "?"
+                if t < 20 and not r.startswith("0 type=%d " % t):
+                    spec_bad = ("type-string-roundtrip:%d" % t, "hwloc_type_sscanf(hwloc_obj_type_string(%d)) gives %r" % (t, r))
+            if spec_bad:
+                run.violation(spec_bad[0], spec_bad[1], self.replay_text(c, a, b))
+            # ---- correspondence
+            if a == b:
+                run.cov["traces_validated_against_impl"] += 1
+            else:
+                self.n_corr_bad += 1
+                first = next((x for x in zip(a, b) if x[0] != x[1]), (a[len(b):][:1] or ["<missing>"], b[len(a):][:1] or ["<missing>"]))
+                if not spec_bad:
+                    run.violation("correspondence:" + c.replace(" ", "_")[:90],
+                                  "model and implementation differ on %r: impl=%r model=%r%s" % (c[:200], first[0], first[1], SWITCH_HINT),
+                                  "kind: correspondence\ncase: %s\nimpl:\n  %s\nmodel:\n  %s\n" % (c, "\n  ".join(a[:20]), "\n  ".join(b[:20])),
+                                  no_input=True)
+
+
+def topo_cases(run, T, srcs):
+    """load each source with the real library; returns the derived tsn/asn lines (objects of loaded topologies)
+    and evaluates the C-side checks (contract of every object x 9 flag words x every size; round trip; one text per level)"""
+    rc, out, err = T.c(srcs, timeout=900)
+    derived, cur = [], None
+    fl_t = [0, 2, 4, 1, 63]
+    fl_a = [0, 8, 9, 16, 40, 63]
+    loaded = 0
+    if rc != 0:
+        last = [l for l in out if l.startswith("topo ")]
+        run.violation("harness-crash-topo:" + (last[-1] if last else "?")[:80].replace(" ", "_"),
+                      "the C harness died (rc=%d) while printing the objects of %s" % (rc, last[-1] if last else "?"),
+                      "kind: input\nstderr:\n" + err[-3000:])
+    for l in out:
+        if l.startswith("topo "):
+            cur = l
+            if l.endswith("LOADED"):
+                loaded += 1
+            if l.endswith("DONE objs=0 bad=0"):
+                pass
+            m = re.search(r"DONE objs=(\d+) bad=(\d+) contract_evals=(\d+)", l)
+            if m:
+                run.bump("topo:objects", int(m.group(1)))
+                run.cov["c_side_contract_evaluations"] = int(m.group(3))
+        elif l.startswith("level "):
+            m = re.match(r"level (-?\d+) flags=(\d+) n=(\d+) differ=(\d+) first=(.*)", l)
+            d, n, differ = int(m.group(1)), int(m.group(3)), int(m.group(4))
+            run.count(l, nontrivial=n > 1, kind="level")
+            # bridges (host vs PCI) and OS devices of one special level legitimately differ (DESIGN 6.C11)
+            if differ and d not in (-4, -6):
+                run.violation("level-type-text-differs:%s:%d" % (os.path.basename((cur or "").split()[-2] if cur else "?"), d),
+                              "objects of one level print different type texts: %s (%s)" % (l, cur), "kind: input\ncase: %s\n%s\n" % (cur, l))
+        elif l.startswith("robj "):
+            src = (cur or "?").rsplit(" ", 1)[0]
+            if "LOOP" in l:
+                run.violation(K_LOOP, "on a loaded topology (%s): %s" % (src, l), "kind: input\ncase: %s\n%s\n" % (src, l))
+            elif "ASSERT" in l or ("roundtrip" in l and "type=16" in l):
+                run.violation(K_BRIDGE, "on a loaded topology (%s): %s" % (src, l), "kind: input\ncase: %s\n%s\n" % (src, l))
+            else:
+                run.violation("loaded-object:" + re.sub(r"\W+", "_", l)[:80], "on a loaded topology (%s): %s" % (src, l), "kind: input\ncase: %s\n%s\n" % (src, l))
+        elif l.startswith("obj "):
+            m = re.match(r"obj depth=(-?\d+) tsn (.*) \| asn (.*) \| (\d+.*)$", l)
+            tf, af, inf = m.group(2), m.group(3), m.group(4)
+            for fl in fl_t:
+                derived.append("tsn %s %d" % (tf, fl))
+            for fl in fl_a:
+                derived.append("asn %s %s %d %s" % (af, G.hx(" "), fl, inf))
+    return loaded, sorted(set(derived))
+
+
+def xml_sources():
+    xs = sorted(glob.glob(os.path.join(C.REPO, "tests/hwloc/xml/*.xml")))
+    xs += sorted(glob.glob(os.path.join(CORPUS, "*.xml")))
+    return ["topo xml " + x for x in xs] + ["topo synthetic " + s for s in G.SYNTHETIC]
+
+
+def corpus_lines():
+    res = []
+    for p in sorted(glob.glob(os.path.join(CORPUS, "*.case"))):
+        for l in open(p):
+            l = l.rstrip("\n")
+            if l and not l.startswith("#"):
+                res.append(l)
+    return res
+
+
+def with_fork_marks(T, ssc):
+    """strings for which the model predicts a read outside the blocks are answered in a forked child"""
+    am = T.m(ssc)
+    return [("ssc! " + c[4:]) if a.endswith("-> OOB") else c for c, a in zip(ssc, am)]
 
 
 def check(run, replay=None):
     proof = C.prove("C11")
-    drv = C.extract("C11", "drv_c11.ml")
-    exe = C.build_harness("hwv_types", ["hwv_types.c"])
-    cases = ["cmp %d %d" % (a, b) for a in range(20) for b in range(20)] + ["kind %d" % a for a in range(20)]
-    inp = ("\n".join(cases) + "\n").encode()
-    rc1, out_c, err_c = C.sh([exe], input=inp, env=C.run_env(), timeout=60)
-    rc2, out_m, err_m = C.sh([drv], input=inp, timeout=60)
-    lc, lm = out_c.decode().split("\n"), out_m.decode().split("\n")
-    if rc1 != 0:
-        run.violation("harness-crash", "C harness failed rc=%d" % rc1, err_c.decode(errors="replace")[-2000:])
-    for c, a, b in zip(cases, lc, lm):
-        run.count(a, nontrivial=True, sample={"case": c, "impl": a, "model": b}, kind=c.split()[0])
-        if a != b:
-            run.violation("correspondence:" + c.replace(" ", "-"), "model and implementation differ on %s: impl=%r model=%r" % (c, a, b),
-                          "kind: correspondence\ncase: %s\nimpl: %s\nmodel: %s\n" % (c, a, b), no_input=True)
-        else:
-            run.cov["traces_validated_against_impl"] += 1
-    run.cov["exhaustive"] = True
-    return run.finish(proof)
+    T = Tools()
+    ck = Checker(run, T)
+    if replay:
+        txt = open(replay).read()
+        cases = [l[6:] for l in txt.split("\n") if l.startswith("case: ") and l[6:].split(" ", 1)[0].rstrip("!") in ("tsn", "asn", "ssc", "tstr", "cmp", "kind")]
+        topos = [l[6:] for l in txt.split("\n") if l.startswith("case: topo ")]
+        if topos:
+            _, derived = topo_cases(run, T, topos)
+            ac, am = ck.execute(derived)
+            ck.judge(derived, ac, am, "replay", from_load=True)
+        if cases:
+            cases = with_fork_marks(T, [c for c in cases if c.startswith("ssc")]) + [c for c in cases if not c.startswith("ssc")]
+            ac, am = ck.execute(cases)
+            ck.judge(cases, ac, am, "replay")
+        return run.finish(proof, trusted=TRUSTED)
+
+    rng = run.rng
+    # 1. corpus first, then the enumerated / generated cases
+    cases = corpus_lines()
+    cases += ["cmp %d %d" % (a, b) for a in range(20) for b in range(20)] + ["kind %d" % a for a in range(20)]
+    cases += ["tstr %d" % t for t in range(0, 22)]
+    cases += G.tsn_cases(rng, run.tier)
+    cases += G.asn_cases(rng, run.tier, T.cls_text, T.lnk_text)
+    ssc = G.ssc_cases(rng, run.tier)
+    e0 = G.ssc_e0_cases(rng, run.tier)
+    ssc = with_fork_marks(T, ssc + e0)
+    nfork = sum(1 for c in ssc if c.startswith("ssc!"))
+    run.bump("ssc:forked-because-model-predicts-oob", nfork)
+    cases += ssc
+    # corpus ssc lines also need the fork mark when the model predicts OOB
+    cases = [c for c in cases if not c.startswith("ssc")] + with_fork_marks(T, [c for c in cases if c.startswith("ssc ")]) + [c for c in cases if c.startswith("ssc!")]
+    ac, am = ck.execute(cases)
+    ck.judge(cases, ac, am, "gen")
+
+    # 2. objects of real topologies
+    loaded, derived = topo_cases(run, T, xml_sources())
+    run.bump("topo:loaded", loaded)
+    if run.tier == "quick" and len(derived) > 2500:
+        keep = set(rng.sample(range(len(derived)), 2500))
+        # always keep bridges and OS devices (the special levels whose objects differ)
+        derived = [d for i, d in enumerate(derived) if i in keep or d.split()[1] in ("16", "18")]
+    ac, am = ck.execute(derived)
+    ck.judge(derived, ac, am, "loaded", from_load=True)
+
+    run.cov["exhaustive"] = "cmp/kind: all 400 pairs / 20 types; tsn: all 20 types x enumerated attribute values x flag words 0..63 (OS devices: all 128 known words x flag words 0..7); sizes 0..needed+1"
+    run.cov["correspondence_mismatches"] = ck.n_corr_bad
+    run.assumptions.append("attr printer: Bridge/PCI objects with total_memory != 0 (never produced by load) are compared with the model only (the printer then stores at (string,size) instead of (tmp,tmplen): latent, see report)")
+    return run.finish(proof, trusted=TRUSTED)
+
+
+TRUSTED = ["libc vsnprintf for %s %u %d %x %llu %c (specified as the C99 contract in Base/Snprintf.v; float %.2f and hwloc_pci_class_string() are opaque pieces supplied by the C side)",
+           "glibc strtol/strncasecmp/strchr as modelled in Base/Strto.v, Base/Bytes.v (validated by C04's sweep)",
+           "harness watchdog: a printer call using more than 150 ms of CPU time is reported as non-terminating"]
+
+
+def prebuild():
+    Tools()
